@@ -53,6 +53,43 @@ pub fn decode_recv_meta(len: u16, use_tos: bool, tos: u8, use_gro: bool, gro: u1
     1 | (if use_tos { 2 } else { 0 }) | (if use_gro { 4 } else { 0 }) | (if use_pktinfo { 8 } else { 0 })
 }
 
+/// C19 ("the source and destination addresses ... are conveyed"): `decode_socket_addr` - which fills
+/// `RecvMeta::addr` - reproduces every field of the kernel's `sockaddr_in6` / `sockaddr_in`: address,
+/// port (network byte order), IPv6 flow label and IPv6 scope id (without which a link-local peer cannot be
+/// answered).
+pub fn decode_socket_addr_fields(v6: bool, a6: [u8; 16], a4: [u8; 4], port: u16, flowinfo: u32, scope: u32) -> u32 {
+    let mut name = MaybeUninit::<libc::sockaddr_storage>::zeroed();
+    if v6 {
+        unsafe {
+            let sin6 = name.as_mut_ptr() as *mut libc::sockaddr_in6;
+            (*sin6).sin6_family = libc::AF_INET6 as _;
+            (*sin6).sin6_port = port.to_be();
+            (*sin6).sin6_flowinfo = flowinfo;
+            (*sin6).sin6_addr = libc::in6_addr { s6_addr: a6 };
+            (*sin6).sin6_scope_id = scope;
+        }
+        let name = unsafe { name.assume_init() };
+        let Ok(SocketAddr::V6(got)) = decode_socket_addr(&name) else { panic!("AF_INET6 must decode to an IPv6 socket address") };
+        assert!(got.ip().octets() == a6);
+        assert!(got.port() == port);
+        assert!(got.scope_id() == scope);
+        assert!(got.flowinfo() == flowinfo);
+        1
+    } else {
+        unsafe {
+            let sin = name.as_mut_ptr() as *mut libc::sockaddr_in;
+            (*sin).sin_family = libc::AF_INET as _;
+            (*sin).sin_port = port.to_be();
+            (*sin).sin_addr = libc::in_addr { s_addr: u32::from_ne_bytes(a4) };
+        }
+        let name = unsafe { name.assume_init() };
+        let Ok(SocketAddr::V4(got)) = decode_socket_addr(&name) else { panic!("AF_INET must decode to an IPv4 socket address") };
+        assert!(got.ip().octets() == a4);
+        assert!(got.port() == port);
+        2
+    }
+}
+
 /// C19 ("the ECN codepoint ... conveyed", "control-message sizing"): the receive path hands the kernel
 /// a control buffer of `cmsg::LEN` bytes.  For the options `UdpSocketState::new` enables on Linux
 /// (SO_TIMESTAMPNS, UDP_GRO, IP_PKTINFO / IPV6_RECVPKTINFO, IP_RECVTOS / IPV6_RECVTCLASS) the kernel
